@@ -746,7 +746,8 @@ class C01(EvalProp):
                 if cur or r.random() < 0.25:
                     break
             has_filter = any(st[0] in (7, 8, 9, 10, 11, 12, 13, 14, 15) for st in spec)      # C01_filter_retrieval: the text is Coq's fchain_path
-            nodollar = not has_filter and spec[0][0] != 4 and r.random() < 0.25
+            # (C18_dollar_optional_before_filters: also when filters follow, as long as the first step is a plain one)
+            nodollar = spec[0][0] not in (4, 7, 8, 9, 10, 11, 12, 13, 14, 15) and r.random() < 0.25
             if nodollar:
                 # C18_dollar_optional: the same path without its leading $ (a first dot name loses its dot, .* becomes *)
                 text = text[1:]
